@@ -77,6 +77,12 @@ T = [
     "str.__dict__", "repr.__self__", "Type.string.__init__", "r._desc.__class__", "r._desc.recordType.__init__",
 ]
 
+NAMESPACE_NAMES = ["fields", "str", "repr", "any", "all", "r", "Type", "lower", "upper", "name", "names", "get_type", "has_field", "field_contains",
+                   "field_equals", "field_regex", "None", "True", "False", "rec", "self", "obj"]
+for _nm in NAMESPACE_NAMES:
+    T += ["any(%s('string') for %s in [r.c.fire])" % (_nm, _nm), "any(%s.fire() for %s in [r.c])" % (_nm, _nm),
+          "any(any(%s() for _j in [1]) for %s in (r.c.fire,))" % (_nm, _nm)]
+
 CONTEXTS = {
     "bare": "%s", "cmp-l": "%s == 1", "cmp-r": "1 == %s", "and": "%s and True", "or": "%s or False", "not": "not %s", "binop": "%s + 1",
     "list": "[%s, 1] == 2", "tuple": "(%s,) == 2", "arg": "lower(%s)", "kwarg": "field_contains(r, ['s'], strings=%s)", "str": "str(%s)",
@@ -249,7 +255,13 @@ def run_case(case):
     label = classify(expr)
     viol = []
     outs = []
-    for i, rec in enumerate(setup()):
+    # "fresh": a new Selector per record; "reused": ONE Selector object matched on the three records twice over, so that whatever
+    # the object remembers from an evaluation (also one that was refused) meets the next record
+    shared = [None]
+    plan = [("fresh", i, rec) for i, rec in enumerate(setup())]
+    if case.get("door") != "explain":
+        plan += [("reused", i, rec) for _ in (0, 1) for i, rec in enumerate(setup())]
+    for mode, i, rec in plan:
         before = obs(rec)
         del LOG[:]
         raised = None
@@ -258,8 +270,12 @@ def run_case(case):
             try:
                 if case.get("door") == "explain":
                     Selector(expr).explain_selector(rec)
-                else:
+                elif mode == "fresh":
                     Selector(expr).match(rec)
+                else:
+                    if shared[0] is None:
+                        shared[0] = Selector(expr)
+                    shared[0].match(rec)
             except RecursionError:
                 raise
             except BaseException as e:  # noqa: BLE001
@@ -273,7 +289,7 @@ def run_case(case):
                 os.unlink(p)
         after = obs(rec)
         outs.append("%s:%s:%s" % (label, "raise" if raised is not None else "value", "EVENT" if events or trip else "quiet"))
-        sig_t = case["t_class"] + (":explain" if case.get("door") == "explain" else "")
+        sig_t = case["t_class"] + (":explain" if case.get("door") == "explain" else "") + (":reused-selector" if mode == "reused" else "")
         if label == "allowed":
             # nothing but the whitelisted helpers' own string handling may run: no method of a field value is ever invoked
             foreign = [e for e in events if e not in ("CanaryStr.lower", "CanaryStr.upper")]
@@ -289,7 +305,7 @@ def run_case(case):
             viol.append(("C09:record-modified:%s" % sig_t, case, {"expr": expr, "record": i}))
     seen = set()
     v2 = [v for v in viol if not (v[0] in seen or seen.add(v[0]))]
-    return {"ev": 3, "h": h, "nt": label == "refused", "out": outs, "viol": v2, "sample": case if int(h, 16) % 397 == 0 else None,
+    return {"ev": len(plan), "h": h, "nt": label == "refused", "out": sorted(set(outs)), "viol": v2, "sample": case if int(h, 16) % 397 == 0 else None,
             "count": {"refused_programs": 1 if label == "refused" else 0, "allowed_programs": 1 if label == "allowed" else 0}}
 
 
@@ -345,6 +361,17 @@ PURE = [  # allowed programs: every helper on every kind of field; the record mu
     "any(lower(x) == 'beta' for x in r.ml) and any(upper(x) == 'ALPHA' for x in r.ml)", "fields('string')", "r.ml and r.m", "not r.ml", "r.n + 1 == 2",
     "net.ipaddress('1.2.3.4') == r.ml", "string('x') in r.ml", "r.ml in [r.ml]", "(r.ml, r.m) == 1", "[r.ml] == 1",
 ]
+for _h in ("field_contains", "field_equals"):
+    for _f in ("['m']", "['ml']", "['sl']", "['m', 'ml', 'sl']", "['sub']", "['n']", "Type.string", "Type.stringlist", "fields('string[]')", "['zz', 'sl']"):
+        for _s in ("['alpha']", "['GAMMA', 'mix']", "r.sl", "[None]"):
+            for _o in ("", ", nocase=True", ", nocase=False", ", word_boundary=True", ", word_boundary=False", ", nocase=True, word_boundary=True",
+                       ", nocase=False, word_boundary=True"):
+                if _h == "field_equals" and "word_boundary" in _o:
+                    continue
+                PURE.append("%s(r, %s, %s%s)" % (_h, _f, _s, _o))
+for _f in ("['m']", "['ml']", "['sl']", "Type.stringlist", "['m', 'sl']"):
+    for _o in ("", ", nocase=True", ", nocase=False"):
+        PURE.append("field_regex(r, %s, 'G.mma|M.X'%s)" % (_f, _o))
 _PURE_RECS = []
 
 
@@ -355,8 +382,8 @@ def pure_records():
 
         gen = datetime.datetime(2020, 1, 1, tzinfo=datetime.timezone.utc)
         sd = RecordDescriptor("c9/psub", [("string", "m"), ("string[]", "ml")])
-        d = RecordDescriptor("c9/pure", [("string", "m"), ("string[]", "ml"), ("varint", "n"), ("record", "sub")])
-        _PURE_RECS.append(d(m="MiX", ml=["Alpha", "BETA"], n=1, sub=sd(m="Sub", ml=["Q"], _generated=gen), _generated=gen))
+        d = RecordDescriptor("c9/pure", [("string", "m"), ("string[]", "ml"), ("varint", "n"), ("record", "sub"), ("stringlist", "sl")])
+        _PURE_RECS.append(d(m="MiX", ml=["Alpha", "BETA"], n=1, sl=["Gamma", "DELTA mix"], sub=sd(m="Sub", ml=["Q"], _generated=gen), _generated=gen))
     return _PURE_RECS
 
 
